@@ -213,6 +213,10 @@ func key(t *rapid.T) *recipe.Node {
 
 func dict(t *rapid.T, depth int) *recipe.Node {
 	n := rapid.IntRange(2, 12).Draw(t, "npairs")
+	if depth >= 2 && rapid.IntRange(0, 7).Draw(t, "bigdict") == 0 {
+		// a table of 64..200 pairs (a library may hand big tables to several workers)
+		n = rapid.IntRange(64, 200).Draw(t, "npairsbig")
+	}
 	var pairs []recipe.Pair
 	for i := 0; i < n; i++ {
 		var v *recipe.Node
@@ -309,6 +313,14 @@ func mapRich(t *rapid.T) *recipe.File {
 		case 3: // many imports
 			var vals []*recipe.Node
 			np := rapid.IntRange(2, 15).Draw(t, "nimports")
+			if rapid.IntRange(0, 3).Draw(t, "veryman") == 0 {
+				// a File with dozens of imports, most of them of packages no other File of this run has met
+				np = rapid.IntRange(17, 160).Draw(t, "nimportsmany")
+				for j := 0; j < np; j++ {
+					vals = append(vals, recipe.Qual(fmt.Sprintf("many.example/%s/p%d", rapid.SampledFrom([]string{"a", "b", "lib"}).Draw(t, "manydir"), j%97), "S"))
+				}
+				np = 3
+			}
 			for j := 0; j < np; j++ {
 				vals = append(vals, recipe.Qual(rapid.SampledFrom(collide).Draw(t, "ipath"), "S"))
 			}
@@ -422,7 +434,7 @@ func TestC07(t *testing.T) {
 	mk := func(f *recipe.File, rt *rapid.T) Case {
 		c := Case{File: f, Rebuilds: rebuilds}
 		n++
-		if rapid.IntRange(0, 19).Draw(rt, "xproc") == 0 {
+		if rapid.IntRange(0, 11).Draw(rt, "xproc") == 0 {
 			c.Procs = procs
 			r.Class("cross_process")
 		}
